@@ -28,6 +28,13 @@ def expr_type(e, env, fns):
     if k == "call": return fns[e[1]][1]
     return None
 
+def has_typed_leaf(e):
+    k = e[0]
+    if k in ("var", "call", "cast"): return True
+    if k == "bin" and e[1] in core.ARITH: return has_typed_leaf(e[2]) or has_typed_leaf(e[3])
+    if k == "un": return has_typed_leaf(e[2])
+    return False
+
 class Site:
     """a mutable path to an expression or statement inside a deep-copied program"""
     def __init__(self, kind, holder, idx, env, ctx, fn_index, ret):
@@ -111,12 +118,15 @@ def inject(prog, cls, rng):
     if cls == "mixed-operands":
         for s in esites:
             e = s.get()
-            if e[0] == "bin" and e[1] in core.ARITH + ["<", "<=", ">", ">="]:
+            # arithmetic only: Ferret compares integers of different types after implicit widening (not in the catalogue);
+            # the operand that stays must carry a type of its own (a bare literal would simply adapt to the new operand)
+            if e[0] == "bin" and e[1] in core.ARITH:
                 t = expr_type(e[2], s.env, fns)
                 if t in core.ITYS:
+                    side = [i for i in (2, 3) if has_typed_leaf(e[5 - i])]
                     x = var_of_type(s.env, lambda u: u in core.ITYS and u != t, rng)
-                    if x is not None:
-                        e[3 if rng.random() < 0.5 else 2] = ["var", x]
+                    if x is not None and side:
+                        e[rng.choice(side)] = ["var", x]
                         return m, s.ctx + ("bin",)
     if cls == "implicit-narrowing":
         for s in ssites:
